@@ -224,7 +224,7 @@ def scenarios(tier):
                     domains=("mc",), frontier=5, assumptions=A, must_reach=("assert", "accepted", "nobody")) for via in ("payload", "dlms", "hdlc", "readout")]
     out.append(Scenario(f"histories of {3 if q else 4} calls over two payloads with three stub decoders", history_path(3 if q else 4),
                         bounds={"calls": 3 if q else 4, "payloads": "A | B per call", "decoders": "3 stubs, accept/reject free per (decoder, payload)"}, domains=("mc",), frontier=5, assumptions=A, replay_cap=150))
-    layouts = [("aidon", "no_list_2"), ("kaifa", "no_list_2"), ("kaifa", "se_list"), ("kamstrup", "no_list_2_three_phase")] if q else \
+    layouts = [("aidon", "no_list_2"), ("kaifa", "no_list_1"), ("kaifa", "no_list_2"), ("kaifa", "se_list"), ("kamstrup", "no_list_2_three_phase")] if q else \
         [("aidon", n) for n in ("no_list_1", "no_list_2", "no_list_3", "se_list")] + [("kaifa", n) for n in ("no_list_1", "no_list_2", "no_list_3", "se_list")] + \
         [("kamstrup", n) for n in ("no_list_1_three_phase", "no_list_2_single_phase", "no_list_2_three_phase", "no_list_1_single_phase_real_sample", "no_list_2_single_phase_real_sample", "se_list_real_sample")]
     AD_ = inject.assumptions(("decoders", "p1"))
